@@ -35,9 +35,9 @@ Definition verdict (init : outcome layout) (upd : layout -> outcome layout)
 
 Definition ds_verdict (b : bugs) (c : dscfg) (t : layout) :=
   verdict (ds_init b c t) (ds_update b c t).
-Definition sm3_verdict (t : layout) := verdict (sm3_init t) (sm3_update t).
+Definition sm3_verdict (b : bugs) (d : dtype) (t : layout) := verdict (sm3_init d t) (sm3_update b d t).
 Definition tf_verdict (b : bugs) (c : tfcfg) (t : layout) :=
-  verdict (tf_init b c t) (tf_update c t).
+  verdict (tf_init b c t) (tf_update b c t).
 
 (* sharded views: (declared code, declared == observed declaration, declared == observed state),
    (pspec code, pspec == observed pspec tree, observed state matches the pspec tree) *)
